@@ -123,6 +123,16 @@ theorem C10_acyclic_accepted (σ : List Name → List Name) (hσ : SetLike σ) (
   obtain ⟨e, wf⟩ := (fromConfig_spec σ hσ cfgs).2 h hc
   exact ⟨_, e, rfl, rfl, wf⟩
 
+/-- A configuration whose sharing names an agent that does not exist is refused too (acyclic or not): the model's
+`from_config` answers `KeyError` — the name enters the evaluation order and the first `update_agents` looks it up. So
+*only* sharing graphs over the agents load, and the loaded ones are exactly the acyclic ones. -/
+theorem C10_dangling_rejected (σ : List Name → List Name) (hσ : SetLike σ) (cfgs : List AgentCfg)
+    (hnc : ¬ Closed (buildAgents cfgs)) :
+    fromConfig σ cfgs = .error .cycle ∨ fromConfig σ cfgs = .error .keyError := by
+  cases hb : hasCycle (sharingGraph σ (buildAgents cfgs)) with
+  | true => exact Or.inl ((fromConfig_spec σ hσ cfgs).1 hb)
+  | false => exact Or.inr (fromConfig_dangling σ hσ cfgs hb hnc)
+
 /-! ## 3. The step reward: weighted sum, shared components read the same step's values -/
 
 /-- `RewardFunction.update`: `current_reward = Σ wᵢ · cᵢ`, each `cᵢ` evaluated on the post-step state `s`, the agent's
